@@ -210,27 +210,51 @@ def evaluate(expr, env):
     return v
 
 
-def read(path):
-    with open(os.path.join(REPO, path)) as fh:
-        return fh.read()
-
-
 def strip_comments(s):
-    return re.sub(r"//[^\n]*", "", s)
+    """remove // line comments and (nested) /* */ block comments; string and char literals are left alone
+    (the crate has none that contain comment markers)"""
+    out = []
+    i, n, depth = 0, len(s), 0
+    while i < n:
+        if s.startswith("/*", i):
+            depth += 1
+            i += 2
+        elif depth > 0 and s.startswith("*/", i):
+            depth -= 1
+            i += 2
+        elif depth > 0:
+            i += 1
+        elif s.startswith("//", i):
+            j = s.find("\n", i)
+            i = n if j < 0 else j
+        else:
+            out.append(s[i])
+            i += 1
+    return "".join(out)
+
+
+def read(path):
+    """source text with comments removed: a commented-out definition must never be mistaken for the live one"""
+    with open(os.path.join(REPO, path)) as fh:
+        return strip_comments(fh.read())
 
 
 def const_expr(src, name):
-    m = re.search(r"\bconst\s+%s\s*:\s*[A-Za-z0-9_]+\s*=\s*([^;]+);" % re.escape(name), src)
-    if not m:
+    ms = re.findall(r"\bconst\s+%s\s*:\s*[A-Za-z0-9_]+\s*=\s*([^;]+);" % re.escape(name), src)
+    if not ms:
         raise GenError("constant %s not found" % name)
-    return m.group(1)
+    if len(set(" ".join(m.split()) for m in ms)) > 1:
+        raise GenError("constant %s defined more than once (%d different definitions)" % (name, len(ms)))
+    return ms[0]
 
 
 def literal_after(src, pattern, what):
-    m = re.search(pattern, src)
-    if not m:
+    ms = re.findall(pattern, src)
+    if not ms:
         raise GenError("literal for %s not found (pattern %s)" % (what, pattern))
-    return m.group(1)
+    if len(set(ms)) > 1:
+        raise GenError("literal for %s is ambiguous (%d different matches)" % (what, len(set(ms))))
+    return ms[0]
 
 
 def table(src, name):
